@@ -6,6 +6,7 @@ FIFO, the memory of the TSO machine goes through exactly the states of this mach
 `RcuList/Inv.lean`), so everything a reader can observe is a state satisfying `SInv`.
 -/
 set_option linter.unusedVariables false
+set_option linter.unusedSimpArgs false
 namespace UrcuVerif.RcuList
 
 /-- node published (in the list now, or removed) -/
@@ -201,5 +202,275 @@ theorem sinv_d2 (c : Cfg) (hb : c.bug = .none) {x x' : Seq} (h : SInv c x) (e : 
   case priv_iff => have := h.priv_iff; simp [upd, newOf, hpc] at *; grind
   case pc_ok => simp [pcOK]
 
+
+set_option hygiene false in
+macro "g1_tac" : tactic => `(tactic| (
+  have hk := h.pc_ok
+  have hprev := h.prev_ok
+  have hpriv := h.priv_iff
+  have hhl := h.head_live
+  have hln := h.live_next
+  simp [pcOK, excOf, newOf, hpc] at hk hprev hpriv
+  refine sinv_frame h ?_ ?_ ?_ ?_ ?_ ?_ ?_ ?_ ?_ ?_ ?_ <;> simp [upd, Seq.pub, excOf, newOf, pcOK] <;>
+    grind))
+
+theorem sinv_a0 (c : Cfg) (hb : c.bug = .none) {x x' : Seq} (h : SInv c x) (n : Nat) (hpc : x.pc = .a0 n)
+    (st : ustep c x .st = some x') : SInv c x' := by
+  simp [ustep, hpc, hb] at st
+  (try split at st) <;> (try simp at st) <;> (subst st; g1_tac)
+
+theorem sinv_a1 (c : Cfg) (hb : c.bug = .none) {x x' : Seq} (h : SInv c x) (n : Nat) (hpc : x.pc = .a1 n)
+    (st : ustep c x .st = some x') : SInv c x' := by
+  simp [ustep, hpc, hb] at st
+  (try split at st) <;> (try simp at st) <;> (subst st; g1_tac)
+
+theorem sinv_a2 (c : Cfg) (hb : c.bug = .none) {x x' : Seq} (h : SInv c x) (n : Nat) (hpc : x.pc = .a2 n)
+    (st : ustep c x .st = some x') : SInv c x' := by
+  simp [ustep, hpc, hb] at st
+  (try split at st) <;> (try simp at st) <;> (subst st; g1_tac)
+
+theorem sinv_a3 (c : Cfg) (hb : c.bug = .none) {x x' : Seq} (h : SInv c x) (n : Nat) (hpc : x.pc = .a3 n)
+    (st : ustep c x .st = some x') : SInv c x' := by
+  simp [ustep, hpc, hb] at st
+  (try split at st) <;> (try simp at st) <;> (subst st; g1_tac)
+
+theorem sinv_t0 (c : Cfg) (hb : c.bug = .none) {x x' : Seq} (h : SInv c x) (n : Nat) (hpc : x.pc = .t0 n)
+    (st : ustep c x .st = some x') : SInv c x' := by
+  simp [ustep, hpc, hb] at st
+  (try split at st) <;> (try simp at st) <;> (subst st; g1_tac)
+
+theorem sinv_t1 (c : Cfg) (hb : c.bug = .none) {x x' : Seq} (h : SInv c x) (n : Nat) (hpc : x.pc = .t1 n)
+    (st : ustep c x .st = some x') : SInv c x' := by
+  simp [ustep, hpc, hb] at st
+  (try split at st) <;> (try simp at st) <;> (subst st; g1_tac)
+
+theorem sinv_t2 (c : Cfg) (hb : c.bug = .none) {x x' : Seq} (h : SInv c x) (n : Nat) (hpc : x.pc = .t2 n)
+    (st : ustep c x .st = some x') : SInv c x' := by
+  simp [ustep, hpc, hb] at st
+  (try split at st) <;> (try simp at st) <;> (subst st; g1_tac)
+
+theorem sinv_t4 (c : Cfg) (hb : c.bug = .none) {x x' : Seq} (h : SInv c x) (n : Nat) (hpc : x.pc = .t4 n)
+    (st : ustep c x .st = some x') : SInv c x' := by
+  simp [ustep, hpc, hb] at st
+  (try split at st) <;> (try simp at st) <;> (subst st; g1_tac)
+
+theorem sinv_r0 (c : Cfg) (hb : c.bug = .none) {x x' : Seq} (h : SInv c x) (o n : Nat) (hpc : x.pc = .r0 o n)
+    (st : ustep c x .st = some x') : SInv c x' := by
+  simp [ustep, hpc, hb] at st
+  (try split at st) <;> (try simp at st) <;> (subst st; g1_tac)
+
+theorem sinv_r1 (c : Cfg) (hb : c.bug = .none) {x x' : Seq} (h : SInv c x) (o n : Nat) (hpc : x.pc = .r1 o n)
+    (st : ustep c x .st = some x') : SInv c x' := by
+  simp [ustep, hpc, hb] at st
+  (try split at st) <;> (try simp at st) <;> (subst st; g1_tac)
+
+theorem sinv_r2 (c : Cfg) (hb : c.bug = .none) {x x' : Seq} (h : SInv c x) (o n : Nat) (hpc : x.pc = .r2 o n)
+    (st : ustep c x .st = some x') : SInv c x' := by
+  simp [ustep, hpc, hb] at st
+  (try split at st) <;> (try simp at st) <;> (subst st; g1_tac)
+
+theorem sinv_r4 (c : Cfg) (hb : c.bug = .none) {x x' : Seq} (h : SInv c x) (o n : Nat) (hpc : x.pc = .r4 o n)
+    (st : ustep c x .st = some x') : SInv c x' := by
+  simp [ustep, hpc, hb] at st
+  (try split at st) <;> (try simp at st) <;> (subst st; g1_tac)
+
+theorem sinv_d1 (c : Cfg) (hb : c.bug = .none) {x x' : Seq} (h : SInv c x) (e : Nat) (hpc : x.pc = .d1 e)
+    (st : ustep c x .st = some x') : SInv c x' := by
+  simp [ustep, hpc, hb] at st
+  (try split at st) <;> (try simp at st) <;> (subst st; g1_tac)
+
+theorem sinv_add (c : Cfg) (hb : c.bug = .none) {x x' : Seq} (h : SInv c x) (n : Nat)
+    (st : ustep c x (.add n) = some x') : SInv c x' := by
+  simp only [ustep] at st
+  split at st
+  · next hg =>
+    obtain ⟨hpc, hg⟩ := hg
+    simp at st; subst st; g1_tac
+  · simp at st
+
+theorem sinv_addTail (c : Cfg) (hb : c.bug = .none) {x x' : Seq} (h : SInv c x) (n : Nat)
+    (st : ustep c x (.addTail n) = some x') : SInv c x' := by
+  simp only [ustep] at st
+  split at st
+  · next hg =>
+    obtain ⟨hpc, hg⟩ := hg
+    simp at st; subst st; g1_tac
+  · simp at st
+
+theorem sinv_del (c : Cfg) (hb : c.bug = .none) {x x' : Seq} (h : SInv c x) (e : Nat)
+    (st : ustep c x (.del e) = some x') : SInv c x' := by
+  simp only [ustep] at st
+  split at st
+  · next hg =>
+    obtain ⟨hpc, hg⟩ := hg
+    simp at st; subst st; g1_tac
+  · simp at st
+
+theorem sinv_repl (c : Cfg) (hb : c.bug = .none) {x x' : Seq} (h : SInv c x) (o n : Nat)
+    (st : ustep c x (.repl o n) = some x') : SInv c x' := by
+  simp only [ustep] at st
+  split at st
+  · next hg =>
+    obtain ⟨hpc, hg⟩ := hg
+    simp at st; subst st; g1_tac
+  · simp at st
+
+
+theorem sinv_a4 (c : Cfg) (hb : c.bug = .none) {x x' : Seq} (h : SInv c x) (n : Nat) (hpc : x.pc = .a4 n)
+    (st : ustep c x .st = some x') : SInv c x' := by
+  simp [ustep, hpc, hb] at st
+  subst st
+  have hk := h.pc_ok
+  have hpriv := h.priv_iff
+  simp [pcOK, newOf, hpc] at hk hpriv
+  obtain ⟨hn0, hdat, hnn, hpn, hk⟩ := hk
+  have hnp : x.st n = .priv := (hpriv n).2 rfl
+  have hhl := h.head_live
+  have hf : x.next 0 ≠ 0 → x.st (x.next 0) = .live ∧ x.bef 0 (x.next 0) = true :=
+    fun hn => ⟨h.live_next 0 hhl hn, h.fwd 0 (Or.inl hhl) hn⟩
+  have hdom := h.dom
+  constructor
+  case head_live => simp [upd, pubHead]; grind
+  case irr => have := h.irr; simp [upd, pubHead, pubB_iff] at *; grind
+  case trans => have := h.trans; have := h.head_first; simp [upd, pubHead, pubB_iff, Seq.pub] at *; grind
+  case total => have := h.total; simp [upd, pubHead, pubB_iff, Seq.pub] at *; grind
+  case dom => simp [upd, pubHead, pubB_iff, Seq.pub] at *; grind
+  case head_first => have := h.head_first; simp [upd, pubHead, pubB_iff, Seq.pub] at *; grind
+  case hist_iff => have := h.hist_iff; simp [upd, pubHead, pubB_iff, Seq.pub] at *; grind
+  case fwd => have := h.fwd; simp [upd, pubHead, pubB_iff, Seq.pub] at *; grind
+  case live_next => have := h.live_next; simp [upd, pubHead, pubB_iff, Seq.pub] at *; grind
+  case live_skip => have := h.live_skip; have := h.head_first; simp [upd, pubHead, pubB_iff, Seq.pub] at *; grind
+  case dead_next => have := h.dead_next; simp [upd, pubHead, pubB_iff, Seq.pub] at *; grind
+  case dead_skip => have := h.dead_skip; have := h.dead_le; simp [upd, pubHead, pubB_iff, Seq.pub] at *; grind
+  case pub_le => have := h.pub_le; simp [upd, pubHead, Seq.pub] at *; grind
+  case dead_le => have := h.dead_le; have := h.pub_le; simp [upd, pubHead, Seq.pub] at *; grind
+  case data_ok => have := h.data_ok; simp [upd, pubHead, Seq.pub] at *; grind
+  case prev_ok => have := h.prev_ok; simp [upd, pubHead, excOf, hpc] at *; grind
+  case priv_iff => simp [upd, pubHead, newOf] at *; grind
+  case pc_ok => simp [pcOK, pubHead]
+
+
+theorem sinv_t3 (c : Cfg) (hb : c.bug = .none) {x x' : Seq} (h : SInv c x) (n : Nat) (hpc : x.pc = .t3 n)
+    (st : ustep c x .st = some x') : SInv c x' := by
+  simp [ustep, hpc] at st
+  subst st
+  have hk := h.pc_ok
+  have hpriv := h.priv_iff
+  simp [pcOK, newOf, hpc] at hk hpriv
+  obtain ⟨hhl0, hn0, hdat, hnn, hpn⟩ := hk
+  have hnp : x.st n = .priv := (hpriv n).2 rfl
+  have hhl := h.head_live
+  have hp0 := h.prev_ok 0 hhl (Or.inr hhl0) (by simp [excOf, hpc])
+  have hdom := h.dom
+  have hls := h.live_skip (x.prev 0)
+  have hhf := h.head_first
+  constructor
+  case head_live => simp [upd, pubTail]; grind
+  case irr => have := h.irr; have : pubB (x.st n) = false := by rw [hnp]; rfl
+              simp [upd, pubTail] at *; grind
+  case trans => have := h.trans; simp [upd, pubTail, pubB_iff, Seq.pub] at *; grind
+  case total => have := h.total; simp [upd, pubTail, pubB_iff, Seq.pub] at *; grind
+  case dom => simp [upd, pubTail, pubB_iff, Seq.pub] at *; grind
+  case head_first => simp [upd, pubTail, pubB_iff, Seq.pub] at *; grind
+  case hist_iff => have := h.hist_iff; simp [upd, pubTail, pubB_iff, Seq.pub] at *; grind
+  case fwd => have := h.fwd; simp [upd, pubTail, pubB_iff, Seq.pub] at *; grind
+  case live_next => have := h.live_next; simp [upd, pubTail, pubB_iff, Seq.pub] at *; grind
+  case live_skip =>
+    have := h.live_skip; have lu := @SInv.last_unique c x h; have := h.live_next
+    simp [upd, pubTail, pubB_iff, Seq.pub] at *
+    intro a y; have := @lu a (x.prev 0)
+    by_cases hyn : y = n <;> by_cases han : a = n <;> by_cases hap : a = x.prev 0 <;> simp [*] <;> grind
+  case dead_next => have := h.dead_next; simp [upd, pubTail, pubB_iff, Seq.pub] at *; grind
+  case dead_skip => have := h.dead_skip; have := h.dead_le; simp [upd, pubTail, pubB_iff, Seq.pub] at *; grind
+  case pub_le => have := h.pub_le; simp [upd, pubTail, Seq.pub] at *; grind
+  case dead_le => have := h.dead_le; have := h.pub_le; simp [upd, pubTail, Seq.pub] at *; grind
+  case data_ok => have := h.data_ok; simp [upd, pubTail, Seq.pub] at *; grind
+  case prev_ok => have := h.prev_ok; simp [upd, pubTail, excOf, hpc] at *; grind
+  case priv_iff => simp [upd, pubTail, newOf] at *; grind
+  case pc_ok => simp [pcOK, pubTail, upd] at *; grind
+
+theorem sinv_r3 (c : Cfg) (hb : c.bug = .none) {x x' : Seq} (h : SInv c x) (o n : Nat) (hpc : x.pc = .r3 o n)
+    (st : ustep c x .st = some x') : SInv c x' := by
+  simp [ustep, hpc] at st
+  subst st
+  have hk := h.pc_ok
+  have hpriv := h.priv_iff
+  simp [pcOK, newOf, hpc] at hk hpriv
+  obtain ⟨hhl0, ho0, hn0, hol, hdat, hnn, hpn⟩ := hk
+  have hnp : x.st n = .priv := (hpriv n).2 rfl
+  have hhl := h.head_live
+  have hne : x.next o ≠ o := by have := h.irr o; have := h.fwd o (Or.inl hol); grind
+  have hpo := h.prev_ok o hol (Or.inl ho0) (by simp [excOf, hpc])
+  have hbpo : x.bef (x.prev o) o = true := by have := h.fwd (x.prev o) (Or.inl hpo.1); grind
+  have hq : x.next o ≠ 0 → x.st (x.next o) = .live ∧ x.bef o (x.next o) = true :=
+    fun hn => ⟨h.live_next o hol hn, h.fwd o (Or.inl hol) hn⟩
+  have hdom := h.dom
+  have hirr := h.irr
+  have htr := h.trans
+  have hhf := h.head_first
+  constructor
+  case head_live => simp [upd, pubRepl]; grind
+  case irr => simp [upd, pubRepl, Seq.pub] at *; grind
+  case trans => simp [upd, pubRepl, Seq.pub] at *; grind
+  case total => have := h.total; simp [upd, pubRepl, Seq.pub] at *; grind
+  case dom => simp [upd, pubRepl, Seq.pub] at *; grind
+  case head_first => simp [upd, pubRepl, Seq.pub] at *; grind
+  case hist_iff => have := h.hist_iff; simp [upd, pubRepl, Seq.pub] at *; grind
+  case fwd => have := h.fwd; simp [upd, pubRepl, Seq.pub] at *; grind
+  case live_next =>
+    have := h.live_next; have pu := @SInv.pred_unique c x h
+    simp [upd, pubRepl, Seq.pub] at *; intro a; have := @pu a (x.prev o); grind
+  case live_skip =>
+    have := h.live_skip; have pu := @SInv.pred_unique c x h
+    simp [upd, pubRepl, Seq.pub] at *
+    intro a y; have := @pu a (x.prev o)
+    by_cases hyn : y = n <;> by_cases han : a = n <;> by_cases hap : a = x.prev o <;> simp [*] <;> grind
+  case dead_next => have := h.dead_next; have := h.dead_le; simp [upd, pubRepl, Seq.pub] at *; grind
+  case dead_skip =>
+    have := h.dead_skip; have := h.live_skip; have := h.dead_le; have := h.pub_le
+    simp [upd, pubRepl, Seq.pub] at *
+    intro a y
+    by_cases hao : a = o <;> by_cases hyn : y = n <;> by_cases hyo : y = o <;> simp [*] <;> grind
+  case pub_le => have := h.pub_le; simp [upd, pubRepl, Seq.pub] at *; grind
+  case dead_le => have := h.dead_le; have := h.pub_le; simp [upd, pubRepl, Seq.pub] at *; grind
+  case data_ok => have := h.data_ok; simp [upd, pubRepl, Seq.pub] at *; grind
+  case prev_ok => have := h.prev_ok; simp [upd, pubRepl, excOf, hpc] at *; grind
+  case priv_iff => simp [upd, pubRepl, newOf] at *; grind
+  case pc_ok => simp [pcOK, pubRepl, upd] at *; grind
+
+
+/-- every step of the sequential updater machine preserves the invariant (real code: `bug = none`) -/
+theorem sinv_ustep (c : Cfg) (hb : c.bug = .none) {x x' : Seq} {l : ULabel} (h : SInv c x)
+    (st : ustep c x l = some x') : SInv c x' := by
+  cases l with
+  | add n => exact sinv_add c hb h n st
+  | addTail n => exact sinv_addTail c hb h n st
+  | del e => exact sinv_del c hb h e st
+  | repl o n => exact sinv_repl c hb h o n st
+  | st =>
+    have hk := h.pc_ok
+    cases hpc : x.pc with
+    | idle => simp [ustep, hpc] at st
+    | a0 n => exact sinv_a0 c hb h n hpc st
+    | a1 n => exact sinv_a1 c hb h n hpc st
+    | a2 n => exact sinv_a2 c hb h n hpc st
+    | a3 n => exact sinv_a3 c hb h n hpc st
+    | a4 n => exact sinv_a4 c hb h n hpc st
+    | e2 n f => simp [pcOK, hpc] at hk
+    | e3 n f => simp [pcOK, hpc] at hk
+    | e4 n f => simp [pcOK, hpc] at hk
+    | t0 n => exact sinv_t0 c hb h n hpc st
+    | t1 n => exact sinv_t1 c hb h n hpc st
+    | t2 n => exact sinv_t2 c hb h n hpc st
+    | t3 n => exact sinv_t3 c hb h n hpc st
+    | t4 n => exact sinv_t4 c hb h n hpc st
+    | r0 o n => exact sinv_r0 c hb h o n hpc st
+    | r1 o n => exact sinv_r1 c hb h o n hpc st
+    | r2 o n => exact sinv_r2 c hb h o n hpc st
+    | r3 o n => exact sinv_r3 c hb h o n hpc st
+    | r4 o n => exact sinv_r4 c hb h o n hpc st
+    | d1 e => exact sinv_d1 c hb h e hpc st
+    | d2 e => exact sinv_d2 c hb h e hpc st
+    | d3 e => simp [pcOK, hpc] at hk
 
 end UrcuVerif.RcuList
